@@ -58,7 +58,7 @@ func (c *Ctx) ord7() {
 			}
 			uses := false
 			for _, a := range e.Args {
-				if pr, ok := a.(*ssa.Parameter); ok && pr.Name() == "conn" {
+				if pr, ok := a.(*ssa.Parameter); ok && pr.Type().String() == "net.Conn" {
 					uses = true
 				}
 			}
@@ -72,7 +72,7 @@ func (c *Ctx) ord7() {
 				if ok {
 					a0, _ := req.Call.Args[0].(*ssa.Parameter)
 					a1, _ := req.Call.Args[1].(*ssa.Parameter)
-					ok = a0 != nil && a0.Name() == "config" && a1 != nil && a1.Name() == "clientID"
+					ok = a0 != nil && strings.HasSuffix(a0.Type().String(), ".Config") && a0 != hk.Params[0] && a1 != nil && a1.Type().String() == "[]byte"
 				}
 			}
 			if ok {
@@ -391,7 +391,7 @@ func (c *Ctx) ord9() {
 				okT := false
 				if call, ok := arg.(*ssa.Call); ok {
 					if f := call.Call.StaticCallee(); f != nil && f.Name() == "spoolFile" {
-						if pr, ok := call.Call.Args[len(call.Call.Args)-1].(*ssa.Parameter); ok && pr.Name() == "key" {
+						if pr, ok := call.Call.Args[len(call.Call.Args)-1].(*ssa.Parameter); ok && pr.Type().String() == "uint" {
 							okT = true
 						}
 					}
@@ -645,6 +645,53 @@ func (c *Ctx) ord13() {
 		a.done(1, "the receiver of WriteTo is never stored to after the initial parameter copy")
 	}
 
+	// peekPacket: the retry edge compares the new fill with a baseline taken in the same iteration
+	if pp := c.Fn("ORD-13", "(*Client).peekPacket"); pp != nil {
+		a := c.acc("ORD-13", pp, "payload-retry-only-after-progress-since-the-previous-attempt∧Timeout()")
+		for _, p := range c.Paths("ORD-13", pp) {
+			if p.End != pathx.KLoopBack {
+				continue
+			}
+			ip := p.Index(0, func(e *pathx.Event) bool { return isStd(e, "(*bufio.Reader).Peek") })
+			if ip < 0 {
+				continue
+			}
+			last := len(p.Events) - 1
+			progress, timeout := false, false
+			for _, cm := range assumed(p, ip, last) {
+				for _, k := range []cmp{cm, cm.swapped()} {
+					if k.Op != token.GTR || !lenOf(k.X, "Client.peek") {
+						continue
+					}
+					// the baseline: a len(c.peek) evaluated in this very iteration, before the Peek
+					if call, ok := strip(k.Y).(*ssa.Call); ok {
+						if _, isLen := builtinCall(call, "len"); isLen {
+							for j, b := range p.Blocks {
+								if b == call.Block() && p.BlockEv[j] <= ip {
+									progress = true
+								}
+							}
+						}
+					}
+				}
+			}
+			for i := ip; i < last; i++ {
+				e := &p.Events[i]
+				if e.Kind == pathx.KCall && e.Method != nil && e.Method.Name() == "Timeout" {
+					if rel, _, k := p.Known(e.Result, i, last); k && rel == pathx.RTrue {
+						timeout = true
+					}
+				}
+			}
+			if progress && timeout {
+				a.pass()
+			} else {
+				a.fail(p, last, "the payload read is retried without (more bytes than at the start of this attempt: %v) and (Timeout(): %v): once a single byte arrived, a stalled broker is retried forever", progress, timeout)
+			}
+		}
+		a.done(1, "every retry of the payload Peek lies behind len(c.peek) > len at the start of that attempt and ne.Timeout()")
+	}
+
 	// back edges are control dependent on progress and a timeout; success only behind a nil result
 	for _, fn := range []*ssa.Function{wt, wb, dc} {
 		if fn == nil {
@@ -719,6 +766,14 @@ func (c *Ctx) ord14() {
 		first bool // the first read of peekPacket waits for the next packet without bound, by design
 	}
 	fns := []string{"(*Client).peekPacket", "(*Client).discard", "writeTo", "writeBuffersTo", "(*Client).handshake", "(*BigMessage).ReadAll"}
+	if c.S.Property == "C10" {
+		// C10 is about ReadSlices and the writers; BigMessage.ReadAll (F14) is C13's
+		fns = fns[:len(fns)-1]
+	}
+	if c.S.Property == "C06" {
+		// C06 is about the packet reader tolerating progress-making expiries
+		fns = []string{"(*Client).peekPacket", "(*Client).discard"}
+	}
 	n := 0
 	for _, name := range fns {
 		fn := c.Fn("ORD-14", name)
@@ -730,7 +785,7 @@ func (c *Ctx) ord14() {
 			// PauseTimeout known zero on this path → no protection requested
 			zero := false
 			for _, cm := range assumed(p, 0, -1) {
-				if (roleKey(cm.X) == "Config.PauseTimeout" || isParamNamed(cm.X, "idleTimeout")) && isK(cm.Y, 0) && cm.Op == token.EQL {
+				if (roleKey(cm.X) == "Config.PauseTimeout" || isParamOfType(cm.X, "time.Duration")) && isK(cm.Y, 0) && cm.Op == token.EQL {
 					zero = true
 				}
 			}
@@ -739,6 +794,7 @@ func (c *Ctx) ord14() {
 			}
 			armed := false // a deadline was set since the last blocking call
 			buffered := false
+			var bufferedGE ssa.Value // Buffered() >= this value is known
 			seenIO := 0
 			for i := range p.Events {
 				e := &p.Events[i]
@@ -762,12 +818,12 @@ func (c *Ctx) ord14() {
 						switch {
 						case name == "(*Client).peekPacket" && seenIO == 1 && p.Start == fn.Blocks[0]:
 							a.pass() // idle wait for the next packet
-						case armed || buffered:
+						case armed || buffered && !needsAmount(e) || bufferedGE != nil && amountOf(e) == bufferedGE:
 							a.pass()
 						default:
 							a.fail(p, i, "%s can block without a deadline although PauseTimeout is set: a stalled broker blocks the client beyond PauseTimeout", strings.TrimSpace(DescribeEvent(c.P, e)))
 						}
-						armed, buffered = false, false
+						armed, buffered, bufferedGE = false, false, nil
 					}
 				case pathx.KAssume:
 					// data known to be buffered already: no wait
@@ -776,6 +832,9 @@ func (c *Ctx) ord14() {
 							if f := call.Call.StaticCallee(); f != nil && stdName(f) == "(*bufio.Reader).Buffered" {
 								if cm.Op == token.NEQ && isK(cm.Y, 0) || cm.Op == token.GEQ || cm.Op == token.GTR {
 									buffered = true
+								}
+								if cm.Op == token.GEQ {
+									bufferedGE = strip(cm.Y)
 								}
 							}
 						}
@@ -786,6 +845,18 @@ func (c *Ctx) ord14() {
 		a.done(1, "every possibly blocking transfer follows a fresh deadline (or data already buffered)")
 	}
 	c.S.Floor("ORD-14", "blocking I/O sites on protected paths", n, 12)
+}
+
+// needsAmount: transfers that wait for a given number of bytes.
+func needsAmount(e *pathx.Event) bool {
+	return isStd(e, "(*bufio.Reader).Peek") || isStd(e, "(*bufio.Reader).Discard")
+}
+
+func amountOf(e *pathx.Event) ssa.Value {
+	if needsAmount(e) && e.Call != nil && len(e.Call.Args) == 2 {
+		return strip(e.Call.Args[1]) // the operand as written (a phi is compared as such)
+	}
+	return nil
 }
 
 func isLenCall(v ssa.Value) bool {
